@@ -313,3 +313,23 @@ TRUSTED = TRUSTED + [
 TRUSTED = TRUSTED + [
     "the `@_validate_fromutc_inputs` decorator is re-translated too (its inner function, the wrapped method as a parameter; `isinstance(dt, datetime)` statically true) and validated through the public fromutc of range zones on attached / foreign / naive datetimes (op tzgen.range.fromutc_pub)",
 ]
+
+
+# --- C04 last clause for tzical zones (wt-tzrule): the reported offset is the one WRITTEN in the definition for the component in force
+# (negative non-whole-hour and with-seconds TZOFFSETFROM/TZOFFSETTO values; expected values never pass through tzical._parse_offset)
+_oracle_without_ical_stated = oracle
+_replay_without_ical_stated = replay
+
+
+def oracle(ctx):
+    _oracle_without_ical_stated(ctx)
+    import tzshared
+    tzshared.ical_stated_offsets(ctx)
+
+
+def replay(ctx, payload):
+    if payload["violation"]["case"].get("kind") == "ical-stated-offset" and payload["violation"]["case"].get("phase") == "lookup":
+        import tzshared
+        return tzshared.replay_ical_stated(payload)
+    return _replay_without_ical_stated(ctx, payload)
+# --- end of the appended block
